@@ -11,7 +11,7 @@ import (
 // header value up to maxlen bytes, absent / single / repeated headers.
 func verifH_Timeout() {
 	maxlen := verifParam("maxlen")
-	shape := verifChoice("shape", 3)
+	shape := verifChoice("shape", 4)
 	md := metadata.MD{}
 	s := verifString("hdr", maxlen)
 	switch shape {
@@ -20,6 +20,12 @@ func verifH_Timeout() {
 		md["other"] = []string{s}
 		_, ok := timeoutFromHeaders(md)
 		verifAssert(!ok, "C18.absent")
+		return
+	case 3:
+		// the key is there, its value list is empty (legal on this wire: a Metadata.Values with no val)
+		md["grpc-timeout"] = []string{}
+		_, ok := timeoutFromHeaders(md)
+		verifAssert(!ok, "C18.present-without-a-value")
 		return
 	case 1:
 		md["grpc-timeout"] = []string{s}
